@@ -1,29 +1,35 @@
+#!/usr/bin/env python3
+"""Development helper: confirm sub-agent twins (tests pass with the change) and store them under /verif/twins.
+usage: import_twins.py <worktree> <property> <tag> <round> [<first index>]"""
 import json, os, re, subprocess, shutil, sys
-props={}
+props = {}
 for l in open('/verif/properties.jsonl'):
-    d=json.loads(l); props[d['id']]=d
-SRC=sys.argv[1]; TAG=sys.argv[2]
-for pid in sorted(os.listdir(SRC)):
-    d=SRC+'/'+pid
-    for k in (1,2,3):
-        p='%s/twin%d.patch'%(d,k); t='%s/twin%d.txt'%(d,k)
-        name='%s-%s%d'%(pid,TAG,k)
-        if not os.path.isfile(p) or os.path.isdir('/verif/twins/'+name): continue
-        subprocess.run(['git','checkout','-q','--','praatio'],cwd=d)
-        subprocess.run(['git','clean','-qfd','praatio'],cwd=d)
-        r=subprocess.run(['git','apply',p],cwd=d,capture_output=True,text=True)
-        if r.returncode: print(name,'APPLY-FAILED',r.stderr[:200]); continue
-        r=subprocess.run(['/venv/bin/python','-m','pytest','-q','-p','no:cacheprovider'],cwd=d,env=dict(os.environ,PYTHONPATH=d),capture_output=True,text=True)
-        tail=r.stdout.strip().splitlines()[-1]
-        subprocess.run(['git','checkout','-q','--','praatio'],cwd=d)
-        subprocess.run(['git','clean','-qfd','praatio'],cwd=d)
-        if '367 passed' not in tail: print(name,'TESTS',tail); continue
-        files=re.findall(r'^\+\+\+ b/(\S+)',open(p).read(),re.M)
-        rel=sorted(q for q,pd in props.items() if set(files)&set(pd['anchors']['files']))
-        if pid not in rel: rel.append(pid)
-        os.makedirs('/verif/twins/'+name)
-        shutil.copy(p,'/verif/twins/%s/patch.diff'%name)
-        meta={"id":name,"round":int(sys.argv[3]),"written_for":pid,"origin":"independent sub-agent (round 2) given only the property text and a scratch worktree; asked for behaviour-preserving restructurings","files":files,
-              "what":open(t).read().strip()[:1500] if os.path.isfile(t) else "","properties":sorted(rel),"confirmed":{"tests_with_change":tail}}
-        json.dump(meta,open('/verif/twins/%s/meta.json'%name,'w'),indent=1)
-        print(name,'ok',tail,rel)
+    d = json.loads(l); props[d['id']] = d
+d, pid, tag, rnd = sys.argv[1], sys.argv[2], sys.argv[3], int(sys.argv[4])
+first = int(sys.argv[5]) if len(sys.argv) > 5 else 1
+for k in (1, 2, 3):
+    p = '%s/twin%d.patch' % (d, k); t = '%s/twin%d.txt' % (d, k)
+    name = '%s-%s%d' % (pid, tag, first + k - 1)
+    if not os.path.isfile(p) or os.path.isdir('/verif/twins/' + name):
+        continue
+    subprocess.run(['git', 'checkout', '-q', '--', 'praatio'], cwd=d)
+    subprocess.run(['git', 'clean', '-qfd', 'praatio'], cwd=d)
+    r = subprocess.run(['git', 'apply', p], cwd=d, capture_output=True, text=True)
+    if r.returncode:
+        print(name, 'APPLY-FAILED', r.stderr[:200]); continue
+    r = subprocess.run(['/venv/bin/python', '-m', 'pytest', '-q', '-p', 'no:cacheprovider'], cwd=d, env=dict(os.environ, PYTHONPATH=d), capture_output=True, text=True)
+    tail = r.stdout.strip().splitlines()[-1]
+    subprocess.run(['git', 'checkout', '-q', '--', 'praatio'], cwd=d)
+    subprocess.run(['git', 'clean', '-qfd', 'praatio'], cwd=d)
+    if '367 passed' not in tail:
+        print(name, 'TESTS', tail); continue
+    files = re.findall(r'^\+\+\+ b/(\S+)', open(p).read(), re.M)
+    rel = sorted(q for q, pd in props.items() if set(files) & set(pd['anchors']['files']))
+    if pid not in rel:
+        rel.append(pid)
+    os.makedirs('/verif/twins/' + name)
+    shutil.copy(p, '/verif/twins/%s/patch.diff' % name)
+    meta = {"id": name, "round": rnd, "written_for": pid, "origin": "independent sub-agent (round %d) given only the property text and a scratch worktree; asked for behaviour-preserving restructurings" % rnd, "files": files,
+            "what": open(t).read().strip()[:1500] if os.path.isfile(t) else "", "properties": sorted(rel), "confirmed": {"tests_with_change": tail}}
+    json.dump(meta, open('/verif/twins/%s/meta.json' % name, 'w'), indent=1)
+    print(name, 'ok', tail, rel)
